@@ -98,6 +98,10 @@ ImportF(m, new) == [m EXCEPT !.ctcs = ImportCtcs(@, new)]
 ToggleAbstractF(m, f) == [m EXCEPT !.feats[FeatIdx(m, f)].abs = ~@]
 \* attribute.set_default_value(v)
 SetAttrValF(m, f, k, v) == [m EXCEPT !.feats[FeatIdx(m, f)].attrs[k].val = v]
+\* attribute.set_name(n)
+SetAttrNameF(m, f, k, n) == [m EXCEPT !.feats[FeatIdx(m, f)].attrs[k].name = n]
+\* feature.set_attributes([all but the k-th])
+RemoveAttrF(m, f, k) == [m EXCEPT !.feats[FeatIdx(m, f)].attrs = SubSeq(@, 1, k - 1) \o SubSeq(@, k + 1, Len(@))]
 \* model.ctcs.pop(i)
 RemoveCtcF(m, i) == [m EXCEPT !.ctcs = SubSeq(@, 1, i - 1) \o SubSeq(@, i + 1, Len(@))]
 \* ctc.ast.root.data = op
